@@ -200,8 +200,19 @@ class NarwhalsMaterializer(FormulaMaterializer):
 
         # TODO: Can we do better than this? Having to reconstitute raw data
         # does not seem ideal.
+        names = [name for name, _ in cols]
+        if len(set(names)) < len(names) and spec.output != "narwhals":
+            # Column names need not be unique (e.g. the several zero terms of a
+            # differentiated formula); dataframes key columns by name, so use
+            # positions while assembling.
+            keys = [str(i) for i in range(len(names))]
+        else:
+            keys = names
         combined = nw.from_dict(
-            {name: nw.to_native(col, pass_through=True) for name, col in cols},
+            {
+                key: nw.to_native(col, pass_through=True)
+                for key, (_, col) in zip(keys, cols)
+            },
             native_namespace=nw.get_native_namespace(self.__narwhals_data),
         )
         if spec.output == "narwhals":
@@ -210,6 +221,8 @@ class NarwhalsMaterializer(FormulaMaterializer):
             return combined.to_native()
         if spec.output == "pandas":
             df = combined.to_pandas()
+            if keys is not names:
+                df.columns = names
             return df
         if spec.output == "numpy":
             return combined.to_numpy()
